@@ -308,7 +308,16 @@ impl TransactionRequest {
 
         // Enforce validity requirements.
         if !request.payments.is_empty() {
-            TransactionRequest::from_uri(&request.to_uri())?;
+            let parsed = TransactionRequest::from_uri(&request.to_uri())?;
+
+            // The rendered URI must denote this request. A payment whose `other_params`
+            // reuse a name that ZIP 321 reserves (e.g. "label") or that carries an index
+            // suffix renders to a URI that parses, but to a different request.
+            if parsed != request {
+                return Err(Zip321Error::ParseError(
+                    "Payment request is not preserved by its URI encoding".to_string(),
+                ));
+            }
         }
 
         Ok(request)
